@@ -38,8 +38,10 @@ def run(chk: Check) -> None:
         "non-trivial = distinct history with at least one delivered entry"
     )
 
+    base = [T0]       # every history has its own epoch: an entry of another history (another FaultLog of this process) is no entry of this one
+
     def stamp(k: int) -> dt:
-        return T0 + td(minutes=k)
+        return base[0] + td(minutes=k)
 
     def entry_frame(verb: str, idx: int, k: int) -> str:
         cmd = Command._put_system_log_entry(
@@ -60,7 +62,7 @@ def run(chk: Check) -> None:
 
     def stamp_to_k(s: str) -> int:
         d = dt.strptime(s, "%y-%m-%dT%H:%M:%S")
-        return round((d - T0).total_seconds() / 60)
+        return round((d - base[0]).total_seconds() / 60)
 
     found_classes: dict[str, int] = {}
     TAINTED.clear()
@@ -72,8 +74,17 @@ def run(chk: Check) -> None:
         return ".after-lost-announcement" if lost_any else ".after-top-unknown-announcement" if top_unknown else ""
 
     for h in range(N):
+        base[0] = T0 + td(days=(h * 7) % 9000)
         tcs = SimpleNamespace(id=CTL, _gwy=SimpleNamespace())
         flog = FaultLog(tcs)
+        # a view that has been told nothing shows nothing - whatever other controllers' logs this process has seen
+        try:
+            first = (dict(flog.faultlog), flog.latest_event, flog.latest_fault, flog.active_faults)
+        except Exception as e:  # noqa: BLE001
+            first = ("raised", repr(e), None, None)
+        if first[0] or first[1] is not None or first[2] is not None or first[3]:
+            chk.violation("flog.fresh-view.not-empty", f"a fault-log view created for a controller and told nothing yet reports {first!r:.300}",
+                          {"op": "flog.fresh", "history_index": h})
         ctl: list[int] = []          # controller's log, newest first (stamps as minute counters)
         clock = 0
         for _ in range(rnd.choice((0, 0, 2, 5, 5, 61, 62, 63, 64, 70) if h % (5 if thorough else 20) == 0 else (0, 0, 2, 5))):  # entries logged before we started listening
@@ -251,7 +262,14 @@ def run(chk: Check) -> None:
             # ---- score the view after this event
             try:
                 view = flog.faultlog
-                _ = flog.latest_event, flog.latest_fault, flog.active_faults
+                derived = [x for x in (flog.latest_event, flog.latest_fault) if x is not None] + list(flog.active_faults or ())
+                shown = {stamp_to_k(v.timestamp) for v in view.values()}
+                alien = [stamp_to_k(x.timestamp) for x in derived if stamp_to_k(x.timestamp) not in shown]
+                if alien:
+                    _viol(chk, found_classes, "derived-view.phantom", evs, f"latest_event / latest_fault / active_faults name entries {alien} (minutes since this "
+                          f"history's epoch) that the view {sorted(shown)} does not hold - entries this controller never reported")
+                    ok_hist = False
+                    break
             except Exception as e:  # noqa: BLE001
                 _viol(chk, found_classes, "view.raise." + type(e).__name__, evs, f"reading the view raised {e!r}")
                 ok_hist = False
